@@ -505,6 +505,14 @@ def handle (op : String) : P String := do
     let _o1 ← obj; let _c1 ← clampOpt
     let o ← obj; let c ← clampOpt; let p ← tensor; let t ← tensor
     pure (respond (o.loss c p t) (fun r => s!"{rF r.1} {rTensor r.2}"))
+  | "obj.seq" => do
+    -- one objective value evaluated on several pairs in a row: the model's objective has no state
+    let o ← obj; let c ← clampOpt; let k ← nat
+    let pairs ← many (do let p ← tensor; let t ← tensor; pure (p, t)) k
+    let outs := pairs.map (fun (p, t) => match o.loss c p t with
+      | .ok r => s!"{rF r.1} {rTensor r.2}"
+      | .error _ => "reject")
+    pure ("ok " ++ " | ".intercalate outs)
   | "rnd.shuffle" => do
     let seed ← nat; let n ← nat; let vals ← many nat n
     pure (respond (Rng.shuffle F (Rng.create seed) vals) (fun r => s!"{r.1.current} {rNats r.2}"))
